@@ -203,11 +203,11 @@ def validate(spec, cfg, traces, timeout=3600, extra_env=None, heap="6g", dfs=Fal
     return dict(rejected=rejected, inv=inv, generated=gen, distinct=dist, n=len(traces), wall_s=dt, out=out)
 
 
-_RE_BEH = re.compile(r'^<<"BEH", "(.*)">>$')
+_RE_BEH = re.compile(r'^"(\[.*\])"$')
 
 
 def behaviours(spec, cfg, simulate=None, depth=None, seed=None, workers=1, timeout=1800, extra_env=None):
-    """Run a Sim* module whose invariant prints <<"BEH", ToJson(hist)>> lines; return the
+    """Run a Sim* module whose invariant prints ToJson(hist) lines; return the
     list of distinct behaviours (each a list of action records)."""
     md = tempfile.mkdtemp(prefix="bh.", dir=scratch())
     args = ["-workers", str(workers), "-metadir", md, "-noGenerateSpecTE", "-config", cfg]
@@ -227,7 +227,7 @@ def behaviours(spec, cfg, simulate=None, depth=None, seed=None, workers=1, timeo
     for line in out.splitlines():
         m = _RE_BEH.match(line.strip())
         if m:
-            s = m.group(1).encode().decode("unicode_escape")
+            s = json.loads('"' + m.group(1) + '"')
             seen.setdefault(s, None)
     res = [json.loads(s) for s in seen]
     gen, dist, dep = _counts(out)
